@@ -4,6 +4,7 @@ import (
 	"context"
 	"errors"
 	"time"
+	"unsafe"
 )
 
 var (
@@ -25,21 +26,55 @@ type simCtx struct {
 	children    []*simCtx
 	seq         int
 	registered  bool
+	// syncVar carries the happens-before edges of a real context for the race detector: cancel() -> whoever
+	// observes the cancellation (Err() != nil, a receive from Done()); for a context with a deadline also its
+	// creation -> whoever observes the expiry (the runtime's timer does the same). The scheduler, which closes
+	// done, is not part of the program and passes nothing on.
+	syncVar byte
+}
+
+//go:norace
+func (c *simCtx) syncAddr() unsafe.Pointer { return unsafe.Pointer(&c.syncVar) }
+
+// acquireCtx: the calling task has observed that c is cancelled - through c itself or one of its ancestors.
+//
+//go:norace
+func acquireCtx(c *simCtx) {
+	for x := c; x != nil; x = x.sparent {
+		raceAcquire(x.syncAddr())
+	}
 }
 
 //go:norace
 func (c *simCtx) Deadline() (time.Time, bool) {
+	pd, pok := c.parent.Deadline()
 	if c.hasDeadline {
-		return simEpoch.Add(c.deadline), true
+		own := simEpoch.Add(c.deadline)
+		if pok && pd.Before(own) {
+			return pd, true
+		}
+		return own, true
 	}
-	return c.parent.Deadline()
+	return pd, pok
 }
 
 //go:norace
 func (c *simCtx) Done() <-chan struct{} { return c.done }
 
+// Err is a scheduling point in half of the runs (Config.CtxErrPoints): what other goroutines do between an earlier
+// operation of the caller and this look at the context is decided by the schedule in real executions too.
+//
 //go:norace
-func (c *simCtx) Err() error { return c.err }
+func (c *simCtx) Err() error {
+	if t := me(); t != nil && t.s.cfg.CtxErrPoints && t.state == stRunning {
+		t.post(opYield, 0)
+		t.call()
+	}
+	if c.err != nil {
+		acquireCtx(c)
+	}
+	return c.err
+}
 
 //go:norace
 func (c *simCtx) Value(key interface{}) interface{} { return c.parent.Value(key) }
@@ -68,6 +103,7 @@ func newCtx(parent context.Context, hasDeadline bool, d time.Duration) (context.
 	if hasDeadline {
 		c.hasDeadline = true
 		c.deadline = t.s.now + d
+		raceReleaseMerge(c.syncAddr())
 	}
 	t.req = request{kind: opNewCtx, ctx: c, cold: true}
 	t.call()
@@ -83,6 +119,7 @@ func cancelFromTask(c *simCtx) {
 	if c.err != nil {
 		return
 	}
+	raceReleaseMerge(c.syncAddr())
 	// a real scheduling point: what other tasks do between an earlier operation of this task (closing the
 	// transport, say) and this cancellation is something real executions decide too
 	t.req = request{kind: opCancel, ctx: c}
@@ -113,6 +150,7 @@ func (s *Sim) registerCtx(c *simCtx) {
 	s.ctxN++
 	c.seq = s.ctxN
 	c.registered = true
+	s.ctxByDone[chanKey(c.done)] = c
 	if c.sparent != nil {
 		if c.sparent.err != nil {
 			s.cancelCtx(c, c.sparent.err)
